@@ -41,6 +41,11 @@ CHECKS = {
          "For every room history (depth 1 quick / 2 thorough) x caller x 24 data operations, fixtures are planted on the caller's device and on an honest peer holding the same definition; a locally accepted operation's produced rows, references and deletion records are handed to the peer through the real ingestion entry points in synchronisation order and must all be stored; for a locally refused create/update/move/delete the equivalent correctly signed write is forged and must be refused by the peer too.",
          "Peer side = the ingestion sequence of synchronise_day composed by the harness from the real entry points (not the log-driven pull, whose stalls belong to C03). Refused operations are forged for simple shapes only.",
          "DESIGN.md section 5 C12"),
+ "C08": ("model_checking",
+         "explicit-state breadth-first search over the serving state of a connection, every request evaluated in every reachable state through the real serving routine",
+         "Events {authenticate, RoomList, clock early/late, definition-change notification for each of 7 rooms} are explored breadth-first to depth 4 (5 thorough) on a connection of the real serving side and deduplicated on (authenticated, ready, readable room set, clock); in each of the distinct serving states all 13 query kinds are issued for each of 7 rooms (requester member, former member, future member, never member, admin only, user admin only, disabled admin) plus cross-room identifier tuples through the real process_inbound, every answer is decoded with the type the client expects, and any row, reference, deletion record, log line, member list or definition of a room where the oracle says the requester is not a member at that time - or anything before authentication - is a leak.",
+         "The notification rule of the private process_local_event is emulated with the real Room::has_user; authentication is set as initialise_connection does after a successful proof (C19 decides the proof). Canonical state soundness: process_inbound reads no other connection state.",
+         "DESIGN.md section 5 C08"),
 }
 
 NOT_YET = {
